@@ -47,7 +47,10 @@ let configs = [
   { dbblack = []; dbwhite = []; keyblack = [ "b" ]; keywhite = []; lua = false; tdb = 0; resume = false; scount = 5; ssize = 1000000 };
   { dbblack = [ "7" ]; dbwhite = []; keyblack = []; keywhite = []; lua = true; tdb = 2; resume = true; scount = 3; ssize = 1000000 };
   (* target.db = 0 on a resumed run whose checkpoint sits in another database: the connection is NOT on db 0 when the stream starts *)
-  { dbblack = []; dbwhite = []; keyblack = []; keywhite = []; lua = false; tdb = 0; resume = true; scount = 4; ssize = 1000000 } ]
+  { dbblack = []; dbwhite = []; keyblack = []; keywhite = []; lua = false; tdb = 0; resume = true; scount = 4; ssize = 1000000 };
+  (* target.db names a database that the database lists exclude on the SOURCE side: the source's db 2 / db 5 stays filtered *)
+  { dbblack = [ "2" ]; dbwhite = []; keyblack = []; keywhite = []; lua = false; tdb = 2; resume = false; scount = 3; ssize = 1000000 };
+  { dbblack = []; dbwhite = [ "0"; "1" ]; keyblack = []; keywhite = []; lua = false; tdb = 5; resume = false; scount = 100; ssize = 1000000 } ]
 
 let gen_cmd st =
   let key () = rnd_pick st [ "a1"; "a2"; "b1"; "b2"; "k"; "redis-shake-checkpoint-x" ] in
@@ -93,11 +96,13 @@ let to_line (cs : case) =
     let b = Buffer.create 64 in
     List.iteri (fun i (_, bytes) -> if i >= start && i < stop then Buffer.add_string b bytes) rb;
     hex_of_string (Buffer.contents b) ^ "@" ^ string_of_int pause) cs.cuts in
-  Printf.sprintf "inc %s %d %d %s" (cfg_str cs.cfg) cs.startdb cs.base (String.concat " " segs)
+  (* streams of more than 1000 commands run with metric = true and a one-slot delay-sampling channel (sender.delay_channel_size) *)
+  Printf.sprintf "inc %s|%d %d %d %s" (cfg_str cs.cfg) (if List.length cs.cmds > 1000 then 1 else 0) cs.startdb cs.base (String.concat " " segs)
 
 let show (cs : case) =
-  Printf.sprintf "cfg[%s] startdb=%d base=%d stream: %s" (cfg_str cs.cfg) cs.startdb cs.base
-    (String.concat " / " (List.map (fun (ws, nl) -> (if nl > 0 then Printf.sprintf "(%d nl) " nl else "") ^ String.concat " " ws) cs.cmds))
+  Printf.sprintf "cfg[%s]%s startdb=%d base=%d stream: %s" (cfg_str cs.cfg) (if List.length cs.cmds > 1000 then " metric=true sender.delay_channel_size=1" else "") cs.startdb cs.base
+    (let s = String.concat " / " (List.map (fun (ws, nl) -> (if nl > 0 then Printf.sprintf "(%d nl) " nl else "") ^ String.concat " " ws) cs.cmds) in
+     if String.length s > 3000 then String.sub s 0 3000 ^ Printf.sprintf " ... (%d commands)" (List.length cs.cmds) else s)
 
 (* ---- what the model says ---- *)
 let model_items (cs : case) : item list option =
